@@ -228,6 +228,7 @@ class Fn:
 # ------------------------------------------------------------------------------------------------
 # the comparison loops of detail/compiler.hpp  ->  Yomm2.Sel
 
+COMPILER_TOPS = []
 SRC_COMPARE = os.path.join(VERIF, "harness", "xlate", "compiler_inst.cpp")
 OUT_COMPARE = os.path.join(VERIF, "lean", "Yomm2", "Generated", "CompareSrc.lean")
 WRAPPERS = {"ParenExpr", "MaterializeTemporaryExpr", "ExprWithCleanups", "CXXBindTemporaryExpr"}
@@ -394,6 +395,176 @@ class SelFn:
         refuse(e, "loop increment that is not ++iterator")
 
 
+# ------------------------------------------------------------------------------------------------
+# compiler<Policy>::best  ->  Yomm2.Pick
+
+OUT_BEST = os.path.join(VERIF, "lean", "Yomm2", "Generated", "BestSrc.lean")
+
+
+class PickFn:
+    def __init__(self, cand_id):
+        self.cand = cand_id      # decl id of the parameter `candidates`
+        self.spec = None         # decl id of the loop variable
+        self.other = None        # decl id of the lambda's parameter
+
+    def is_cands(self, e):
+        e = unwrap(e)
+        return e.get("kind") == "DeclRefExpr" and e.get("referencedDecl", {}).get("id") == self.cand
+
+    def cands_call(self, e, which):
+        e = unwrap(e)
+        if e.get("kind") != "CXXMemberCallExpr":
+            return False
+        callee = kids(e)[0]
+        return callee.get("kind") == "MemberExpr" and callee.get("name") == which and self.is_cands(kids(callee)[0]) and len(kids(e)) == 1
+
+    def who(self, e):
+        e = unwrap(e)
+        d = e.get("referencedDecl", {})
+        if e.get("kind") == "DeclRefExpr":
+            if d.get("id") == self.spec:
+                return ".spec"
+            if d.get("id") == self.other:
+                return ".other"
+        refuse(e, "neither the loop variable nor the lambda's parameter")
+
+    def cond(self, e):
+        e = unwrap(e)
+        k = e.get("kind")
+        if k == "BinaryOperator" and e.get("opcode") in ("||", "&&"):
+            a, b = kids(e)
+            return "(%s %s %s)" % (".or" if e["opcode"] == "||" else ".and", self.cond(a), self.cond(b))
+        if k == "BinaryOperator" and e.get("opcode") in ("==", "!="):
+            a, b = kids(e)
+            c = "(.same %s %s)" % (self.who(a), self.who(b))
+            return c if e["opcode"] == "==" else "(.not %s)" % c
+        if k == "UnaryOperator" and e.get("opcode") == "!":
+            return "(.not %s)" % self.cond(kids(e)[0])
+        if k == "CallExpr":
+            ks = kids(e)
+            callee = unwrap(ks[0])
+            if callee.get("kind") == "ImplicitCastExpr":
+                callee = kids(callee)[0]
+            if callee.get("referencedDecl", {}).get("name") == "is_more_specific" and len(ks) == 3:
+                return "(.ms %s %s)" % (self.who(ks[1]), self.who(ks[2]))
+        refuse(e, "not a condition on (spec, other) I know")
+
+    def lambda_cond(self, lam):
+        """the instantiated operator() of [spec](auto other) { return cond; }"""
+        ops = []
+
+        def walk(n):
+            if n.get("kind") == "CXXMethodDecl" and n.get("name") == "operator()" and body_of(n) is not None:
+                pars = [c for c in kids(n) if c.get("kind") == "ParmVarDecl"]
+                if len(pars) == 1 and pars[0].get("type", {}).get("qualType") != "auto":
+                    ops.append((n, pars[0]))
+            for c in kids(n):
+                walk(c)
+        walk(lam)
+        if len(ops) != 1:
+            refuse(lam, "expected one instantiated call operator with one parameter")
+        n, par = ops[0]
+        self.other = par.get("id")
+        stmts = kids(body_of(n))
+        if len(stmts) != 1 or stmts[0].get("kind") != "ReturnStmt" or not kids(stmts[0]):
+            refuse(n, "lambda body that is not a single return")
+        return self.cond(kids(stmts[0])[0])
+
+    def stmt(self, s):
+        k = s.get("kind")
+        if k == "CompoundStmt":
+            return Fn.seq([self.stmt(c) for c in kids(s)])
+        if k == "CXXForRangeStmt":
+            raw = s.get("inner") or []
+            ks = [c for c in raw if isinstance(c, dict) and c]
+            # range, begin, end declarations, condition, increment, loop variable, body
+            if len(ks) != 7 or self.spec is not None:
+                refuse(s, "range-for of an unexpected shape (or nested)")
+            rng = kids(ks[0])[0]
+            if not (kids(rng) and self.is_cands(kids(rng)[0])):
+                refuse(s, "range-for over something that is not the parameter")
+            var = kids(ks[5])[0]
+            if var.get("kind") != "VarDecl" or var.get("type", {}).get("qualType", "").endswith("&"):
+                refuse(var, "loop variable that is not taken by value")
+            self.spec = var.get("id")
+            body = self.stmt(ks[6])
+            self.spec = None
+            return "(.forEach %s)" % body
+        if k == "IfStmt":
+            cs = kids(s)
+            if s.get("hasInit") or s.get("hasVar") or len(cs) != 2:
+                refuse(s, "if with else, initialiser or condition variable")
+            call = unwrap(cs[0])
+            if call.get("kind") == "CallExpr":
+                ks = kids(call)
+                callee = unwrap(ks[0])
+                if callee.get("kind") == "ImplicitCastExpr":
+                    callee = kids(callee)[0]
+                if callee.get("referencedDecl", {}).get("name") == "all_of" and len(ks) == 4 \
+                        and self.cands_call(ks[1], "begin") and self.cands_call(ks[2], "end") and unwrap(ks[3]).get("kind") == "LambdaExpr" \
+                        and self.spec is not None:
+                    return "(.ifAllOf %s %s)" % (self.lambda_cond(unwrap(ks[3])), self.stmt(cs[1]))
+            refuse(s, "condition that is not std::all_of over the candidates with a lambda")
+        if k == "ReturnStmt":
+            e = unwrap(kids(s)[0]) if kids(s) else {}
+            # return candidates;
+            if self.is_cands(e):
+                return ".retAll"
+            # return {spec};
+            node = e
+            while node.get("kind") in ("CXXStdInitializerListExpr", "CXXConstructExpr") or node.get("kind") in WRAPPERS:
+                inner = [c for c in kids(node) if c.get("kind") != "CXXDefaultArgExpr"]
+                if len(inner) != 1:
+                    break
+                node = inner[0]
+            if node.get("kind") == "InitListExpr" and len(kids(node)) == 1 and self.spec is not None:
+                el = unwrap(kids(node)[0])
+                if el.get("kind") == "DeclRefExpr" and el.get("referencedDecl", {}).get("id") == self.spec:
+                    return ".retSingle"
+            refuse(s, "return of something that is neither {spec} nor the candidates")
+        refuse(s, "statement I have no constructor for")
+
+
+def generate_best(tops):
+    found = []
+
+    def walk(n, inspec):
+        if n.get("kind") == "ClassTemplateSpecializationDecl" and n.get("name") == "compiler":
+            inspec = True
+        if inspec and n.get("kind") == "CXXMethodDecl" and n.get("name") == "best" and body_of(n) is not None and not found:
+            found.append(n)
+        for c in kids(n):
+            walk(c, inspec)
+    for t in tops:
+        walk(t, False)
+    if not found:
+        raise Refuse("no instantiated body found for best")
+    n = found[0]
+    pars = [c for c in kids(n) if c.get("kind") == "ParmVarDecl"]
+    if len(pars) != 1:
+        refuse(n, "expected one parameter")
+    body = PickFn(pars[0].get("id")).stmt(body_of(n))
+    return "\n".join(["import Yomm2.MiniPick",
+                      "/-! Generated by tools/cpp2lean.py from clang's AST of detail/compiler.hpp as instantiated by",
+                      "    harness/xlate/compiler_inst.cpp, compiled against /repo. Do not edit. -/",
+                      "namespace Yomm2.Generated.BestSrc", "open Yomm2.Pick", "",
+                      "def best : Stmt :=\n  %s" % body, "", "end Yomm2.Generated.BestSrc", ""])
+
+
+STUB_BEST = """import Yomm2.MiniPick
+/-! Written by tools/cpp2lean.py because compiler<Policy>::best could not be translated on this run:
+    %s
+    The body below is a placeholder; the proofs about the translated source cannot hold for it. -/
+namespace Yomm2.Generated.BestSrc
+open Yomm2.Pick
+
+def translationRefused : String := %s
+def best : Stmt := .skip
+
+end Yomm2.Generated.BestSrc
+"""
+
+
 def generate_compare():
     p = subprocess.run(["clang++-14", "-std=c++17", "-fsyntax-only", "-I" + os.path.join(REPO, "include"), "-Xclang",
                         "-ast-dump=json", "-Xclang", "-ast-dump-filter=yorel::yomm2::detail::compiler", SRC_COMPARE],
@@ -413,7 +584,9 @@ def generate_compare():
             want[n["name"]] = fn.stmt(body_of(n))
         for c in kids(n):
             walk(c, inspec)
-    for t in stream(p.stdout):
+    global COMPILER_TOPS
+    COMPILER_TOPS = list(stream(p.stdout))
+    for t in COMPILER_TOPS:
         walk(t, False)
     missing = [k for k, v in want.items() if v is None]
     if missing:
@@ -569,6 +742,17 @@ def main():
     old = open(OUT_COMPARE).read() if os.path.exists(OUT_COMPARE) else None
     if old != text:
         with open(OUT_COMPARE, "w") as f:
+            f.write(text)
+    try:
+        text = generate_best(COMPILER_TOPS)
+    except Refuse as ex:
+        msg = "cannot translate compiler<Policy>::best: %s" % ex
+        print("cpp2lean: " + msg, file=sys.stderr)
+        text = STUB_BEST % (msg.replace("-/", "- /"), json.dumps(msg))
+        rc = 1
+    old = open(OUT_BEST).read() if os.path.exists(OUT_BEST) else None
+    if old != text:
+        with open(OUT_BEST, "w") as f:
             f.write(text)
     return rc
 
